@@ -1,6 +1,7 @@
 import SkyllhModel.Proto
 import SkyllhModel.Model.LLH
 import SkyllhModel.Model.Weights
+import SkyllhModel.Model.WeightsR7
 open Proto Weights
 
 /-  requests (`q` = exact rationals `num/den`, otherwise floats as IEEE bit patterns):
@@ -16,6 +17,12 @@ open Proto Weights
             -> the values of the E steps: the state machine `lowRun` (cached W, a_jk, f_j) on low-level operations
       prow  <values>                          -> what fields p_1.. / p_1:gpidx.. of a row assigned from paramRow hold: <values> <indices>
       bld   <J> {<builder ids of group g>}     -> error | code:<J x G builder ids, x = unfilled> spec:<J x G builder ids>
+      grd   <axis> <exp> <sizes> <W> <Y flat> {<0/1 per group: key reported> <dY flat>}
+            -> f:<f_j | error> then per key: none | <a_jk_grads flat>;<f_j_grads | error>;<spec rows flat>;<f_j_grads spec>
+      life  <W0> {S <W'> | C <0/1> | A <Y flat (J x K)> | F | GA | GF}
+            -> per call: ok | None | T:<a_jk flat> | V:<f_j> | E:<exception>   (WeightsR7.lifeRun, exceptions as coded)
+      shp   <sizes> <W> {<yield arrays of one dataset, one per group, ';'-separated>}
+            -> error | a_jk flat   (WeightsR7.calcRowChecked: numpy's broadcasting of src_weights * Yg into the slice)
       multi <opa> <ns> <K> <W> <Y flat> <J> {<N_j> <E_j> <R_j flat (K x E_j)>}   -> <log Λ> <f list> <sum |terms|>
 -/
 def chunk {α} (n : Nat) (xs : List α) : List (List α) :=
@@ -135,6 +142,60 @@ def answer (line : String) : String :=
   | ["mchk", na, nd] =>
       match evalWithChecked (1e-3 : Float) 0 (List.replicate (pN na) []) (List.replicate (pN nd) { N := 1, nSel := 0, Rk := [] }) with
       | some _ => "ok"
+      | none => "error"
+  | "grd" :: ax :: e :: sizes :: w :: y :: rest =>
+      let sz := pList pN sizes
+      let W := pList pF w
+      let K := W.length
+      let Yf := pList pF y
+      let J := Yf.length / K
+      let a := ajk W (rowsOf K J Yf)
+      let Ws := splitSizes sz W
+      let fo : Option (List Float) → String := fun o => match o with | some l => fListD fF l | none => "error"
+      let rec keys : List String → List String
+        | m :: d :: more =>
+            let mask := pList pN m
+            let dY := rowsOf K J (pList pF d)
+            let rows := dY.map (fun drow => List.zip Ws ((List.zip mask (splitSizes sz drow)).map
+              (fun p => if p.1 = 1 then some p.2 else none)))
+            (match WeightsR7.gradTable K rows with
+             | none => "none"
+             | some da =>
+                let spec := rows.map WeightsR7.gradRowSpec
+                s!"{fListD fF da.flatten};{fo (WeightsR7.fjGrads (pN ax) (pN e) a da)};{fListD fF spec.flatten};{fListD fF (WeightsR7.fjGradsSpec a da)}") :: keys more
+        | _ => []
+      s!"f:{fo (WeightsR7.fjAxis (pN ax) a)} {" ".intercalate (keys rest)}"
+  | "life" :: w0 :: rest =>
+      let W0 := pList pF w0
+      let K := W0.length
+      let rec ops : List String → List (WeightsR7.LifeOp Float)
+        | "S" :: w :: more => .setW (pList pF w) :: ops more
+        | "C" :: b :: more => .changeShgMgr (b == "1") :: ops more
+        | "A" :: y :: more =>
+            let Yf := pList pF y
+            .calcA (rowsOf K (Yf.length / K) Yf) :: ops more
+        | "F" :: more => .calcF :: ops more
+        | "GA" :: more => .getA :: ops more
+        | "GF" :: more => .getF :: ops more
+        | _ => []
+      let show1 : Except WeightsR7.Err (WeightsR7.Out Float) → String := fun r => match r with
+        | .ok .unit => "ok"
+        | .ok .pyNone => "None"
+        | .ok (.table a) => s!"T:{fListD fF a.flatten}"
+        | .ok (.vec f) => s!"V:{fListD fF f}"
+        | .error .valueError => "E:ValueError"
+        | .error .axisError => "E:AxisError"
+        | .error .attributeError => "E:AttributeError"
+      " ".intercalate ((WeightsR7.lifeRun (WeightsR7.lifeInit W0) (ops rest)).map show1)
+  | "shp" :: sizes :: w :: rest =>
+      let sz := pList pN sizes
+      let W := pList pF w
+      let Ws := splitSizes sz W
+      let rows := rest.map (fun tok =>
+        WeightsR7.calcRowChecked (List.replicate W.length (0.0 / 0.0 : Float))
+          (List.zip Ws ((tok.splitOn ";").map (pList pF))))
+      match rows.mapM id with
+      | some a => fListD fF a.flatten
       | none => "error"
   | "multi" :: opa :: ns :: k :: w :: y :: _j :: rest =>
       let K := pN k
